@@ -890,6 +890,14 @@ class Gen:
                 if r.random() < 0.5:
                     c = r.choice(refs)
                     items.insert(r.randint(0, len(items)), [self.new_name(), self.ref(sc, c)])
+                if r.random() < 0.6:
+                    # a rename whose new name is the source column's own name in another letter case
+                    c = r.choice(refs)
+                    variant = c.name.upper() if r.random() < 0.5 else c.name.capitalize()
+                    if variant != c.name and variant.lower() not in {n.lower() for n, _ in items if n}:
+                        items.insert(r.randint(0, len(items)), [variant, self.ref(sc, c)])
+                        if r.random() < 0.4:
+                            items.append([None, self.ref(sc, c)])       # ... next to the column itself
                 main.append({"t": "select", "items": items})
         return {"lets": lets, "main": main, "cuts": self.cuts}
 
